@@ -124,43 +124,74 @@ pub fn convert(s: Snapshot, base: Instant) -> Snap {
     }
 }
 
+/// The order in which the five builder setters are called: the `n`-th permutation of
+/// (max_capacity, initial_capacity, weigher, time_to_live, time_to_idle). A setter must not disturb
+/// what an earlier one stored, whatever the order.
+pub fn setter_order(n: u64) -> [u8; 5] {
+    let mut items = vec![0u8, 1, 2, 3, 4];
+    let mut n = n % 120;
+    let mut out = [0u8; 5];
+    for (i, slot) in out.iter_mut().enumerate() {
+        let f: u64 = (1..=(4 - i as u64)).product::<u64>().max(1);
+        *slot = items.remove((n / f) as usize);
+        n %= f;
+    }
+    out
+}
+
+/// Derived from the configuration itself, so that histories need no extra field to be replayed.
+pub fn setter_order_of(cfg: &Config) -> [u8; 5] {
+    let h = match cfg.hasher {
+        crate::types::HashMode::Mix(s) => 3 + s,
+        crate::types::HashMode::Identity => 1,
+        crate::types::HashMode::Collide2 => 2,
+    };
+    setter_order(h.wrapping_mul(31) ^ cfg.cap.unwrap_or(5).wrapping_mul(7) ^ (cfg.keys as u64) ^ cfg.ttl.unwrap_or(11).wrapping_mul(13) ^ cfg.tti.unwrap_or(17).wrapping_mul(19))
+}
+
+macro_rules! apply_setters {
+    ($b:ident, $cfg:ident) => {
+        for s in setter_order_of($cfg) {
+            match s {
+                0 => {
+                    if let Some(c) = $cfg.cap {
+                        $b = $b.max_capacity(c);
+                    }
+                }
+                1 => {
+                    if let Some(ic) = $cfg.initial_capacity {
+                        $b = $b.initial_capacity(ic);
+                    }
+                }
+                2 => {
+                    if $cfg.weigher {
+                        $b = $b.weigher(|_k: &TK, v: &TV| v.weight);
+                    }
+                }
+                3 => {
+                    if let Some(t) = $cfg.ttl {
+                        $b = $b.time_to_live(Duration::from_nanos(t));
+                    }
+                }
+                _ => {
+                    if let Some(t) = $cfg.tti {
+                        $b = $b.time_to_idle(Duration::from_nanos(t));
+                    }
+                }
+            }
+        }
+    };
+}
+
 pub fn build_unsync(cfg: &Config) -> UCache {
     let mut b = mini_moka::unsync::Cache::builder();
-    if let Some(c) = cfg.cap {
-        b = b.max_capacity(c);
-    }
-    if let Some(ic) = cfg.initial_capacity {
-        b = b.initial_capacity(ic);
-    }
-    if cfg.weigher {
-        b = b.weigher(|_k: &TK, v: &TV| v.weight);
-    }
-    if let Some(t) = cfg.ttl {
-        b = b.time_to_live(Duration::from_nanos(t));
-    }
-    if let Some(t) = cfg.tti {
-        b = b.time_to_idle(Duration::from_nanos(t));
-    }
+    apply_setters!(b, cfg);
     b.build_with_hasher(TestBuildHasher(cfg.hasher))
 }
 
 pub fn build_sync(cfg: &Config) -> SCache {
     let mut b = mini_moka::sync::Cache::builder();
-    if let Some(c) = cfg.cap {
-        b = b.max_capacity(c);
-    }
-    if let Some(ic) = cfg.initial_capacity {
-        b = b.initial_capacity(ic);
-    }
-    if cfg.weigher {
-        b = b.weigher(|_k: &TK, v: &TV| v.weight);
-    }
-    if let Some(t) = cfg.ttl {
-        b = b.time_to_live(Duration::from_nanos(t));
-    }
-    if let Some(t) = cfg.tti {
-        b = b.time_to_idle(Duration::from_nanos(t));
-    }
+    apply_setters!(b, cfg);
     b.build_with_hasher(TestBuildHasher(cfg.hasher))
 }
 
